@@ -69,6 +69,8 @@ type parserState struct {
 	// querySatisfied is true if both path and value of any queries passed to
 	// consumeAny are satisfied.
 	querySatisfied bool
+	// failed is true if a JSON value could not be parsed to its end.
+	failed bool
 }
 
 // query holds information about a combination of {"key": "val"} that we're trying
@@ -123,6 +125,9 @@ func Parse(queryType string, raw []byte) (parsed, inspected, firstToken int, que
 
 	qs := queries[queryType]
 	got := p.consumeAny(raw, qs, 0)
+	if p.failed {
+		got = 0
+	}
 	return got, p.ib, p.firstToken, p.querySatisfied
 }
 
@@ -131,6 +136,7 @@ func (p *parserState) reset() {
 	p.currPath = p.currPath[0:0]
 	p.firstToken = TokInvalid
 	p.querySatisfied = false
+	p.failed = false
 }
 
 func (p *parserState) consumeSpace(b []byte) (n int) {
@@ -430,6 +436,13 @@ func (p *parserState) consumeAny(b []byte, qs []query, lvl int) (n int) {
 		p.querySatisfied = true
 	}
 	if rv <= 0 {
+		// The value failed to parse. Only the top level call reports how far
+		// it got; nested calls must report the failure to the enclosing
+		// array or object, which would otherwise take the value as consumed.
+		p.failed = true
+		if lvl > 0 {
+			return 0
+		}
 		return n
 	}
 	n += rv
